@@ -57,12 +57,14 @@ claimed = {
  "C15": ("Go layout table vs the same table extracted from the C sources (clang AST / preprocessor, parsed only)", "DESIGN §3.4, §4 C15",
    "About twenty constants and layouts (block types, sizes, header layout, footer order on the writing and the parsing side, object-id bits, hash ids, restart cap, default block size, stack file naming) agree entry by entry between c/ and the Go package; the Go list reader tolerates the C list layout.",
    "behavioural equivalence of the implementations is not decided; narrow claim"),
+ "C17": ("decision rules on every path of the compaction chooser and of AutoCompact (narrow: structural clauses only)", "DESIGN §4 C17, §10.9",
+   "Narrow: the chooser adopts a candidate segment only on a path that excluded a one-table segment; it reports nothing to do exactly when no segment was adopted; after the choice the segment only grows downward one table at a time (stays one contiguous range containing the adopted one); AutoCompact compacts exactly [seg.start, seg.end-1] of a non-nil choice, without expiry, and does nothing otherwise. With C07's range rules: what auto-compaction merges is one contiguous range that is never a single table.",
+   "NOT decided (quantify over numeric size vectors and workloads): which size class is adopted, that 'nothing to do' coincides with 'no two adjacent tables in one class', the 2*log2(N) depth bound and the N*log2(N) rewrite cost, non-negativity of candidate sizes"),
  "C18": ("panic reachability vs allow-table, nil contracts, bounds obligations in a linear-inequality domain over simulated paths", "DESIGN §3.6, §4 C18, Appendix B",
    "No input-controlled explicit panic is reachable from the read API; nilable results are checked before use; all ~300 index/slice/allocation obligations of the 22 decoder and opener functions are discharged on every path from linear facts (loop invariants checked inductively, value-changing conversions opaque, unsigned differences opaque unless shown not to wrap); a nilable result is also not handed to a function that dereferences the parameter; inflated data is read through a limit; the index descent checks the type of the block an index entry leads to (DT-DESCEND, precondition of an allow-table entry).",
    "termination on hostile inputs is NOT decided; obligations outside the decoder set are not generated; preconditions and field invariants listed in the evidence are assumed"),
 }
 not_applicable_reason = {
- "C17": "quantifies over numeric size vectors and workload sizes (size classes, cumulative byte sums, 2*log2 N depth, N*log2 N cost); no clause is decidable from the shape of the code, and evaluating the chooser on enumerated vectors would be a runtime test (DESIGN §4 C17)",
 }
 pending = "static check not built yet in this round (see DESIGN §9 build order); nothing is claimed"
 
